@@ -256,8 +256,12 @@ func drawToken(c *vlib.Case, a authConf, forceValid bool) tokenSpec {
 				continue
 			}
 			sp.family = other[c.Pick("otherFamily", len(other))]
-			sp.alg = famAlgs[sp.family][0]
+			sp.alg = famAlgs[sp.family][c.Pick("otherAlg", len(famAlgs[sp.family]))]
 			sp.kid = false
+			if sp.family == "hmac" && c.Bool("emptyHmacKey") {
+				// the classic: an HS token signed with the empty key on a port that has no HMAC secret
+				sp.defects = append(sp.defects, "empty-key")
+			}
 		}
 		if !has(sp.defects, d) {
 			sp.defects = append(sp.defects, d)
